@@ -27,6 +27,7 @@ EXPLANATION = (
     'as a timing property are NOT decided.')
 EXPLANATION += ' Added after the seeded-change rounds: ' + "D2 also: an external thread searches for a slot only below the arena's concurrency (violated on the pinned tree for task_arena(1): known finding); D5 also: after a global_control is destroyed the first element of the ascending control list becomes active; D7: what a scope object's constructor always saves from outside state is used by its destructor on every path."
 EXPLANATION += ' Added in the third session (round-3 seeds and the findings they led to): ' + 'D5 also: every successful test_and_set / try_clear_if of my_pool_state / my_mandatory_concurrency is reported to the threading control on every path (path-sensitive in the result flags).'
+EXPLANATION += ' Added in the fifth seeding round: ' + 'D4 also: the execution data carries the isolation tag of the task about to run - a task taken out of a container (slot deque, victim slot, mailbox proxy, stream) is executed, spawned again or handed to the caller of receive_or_steal_task only after task_accessor::isolation(*t) was stored into ed.isolation for it; tracked per path and per task-pointer variable, retrieval helpers summarised from their bodies (result stale / fine / parameter i, parameter i is re-spawned).'
 ASSUMPTIONS = ['Linux build configuration', 'spin_mutex / rw_mutex scoped lock model']
 ND = ['allotment arithmetic (sum = min(demand, limit), priorities)', 'the L-1 worker bound', 'instantaneous concurrency <= max_concurrency']
 LOCKCLS = lambda c: c.endswith('scoped_lock') or c in ('std::lock_guard',)   # noqa: E731
@@ -40,6 +41,7 @@ def run(facts, rep):
     d5_budget(facts, rep)
     d6_join(facts, rep)
     d7_scope_symmetry(facts, rep)
+    d4_isolation_tag_follows_the_task(facts, rep)
 
 
 def ops_on(fn, member, kinds=None):
@@ -479,3 +481,246 @@ def d5_flag_changes_reported(facts, rep):
                    key_extra='flag|%s|%s' % (fn.p, node['ln']))
     if n < 3:
         raise AnalysisBroken('arena flag operations (test_and_set / try_clear_if) with a tested result: %d found' % n)
+
+
+# ---------------------------------------------------------------------------------------------------------------
+# D4 (round 5): the execution data carries the isolation tag of the task that is about to run
+TASK_CONTAINERS = ('arena_slot', 'arena', 'task_stream', 'task_proxy', 'mail_inbox', 'mail_outbox')
+
+
+def d4_isolation_tag_follows_the_task(facts, rep, clause='D4'):
+    """While a task runs, ed.isolation is the task's own tag: everything the task spawns inherits it, and a nested wait filters
+    by it.  A task taken out of a container (slot deque, another slot, mailbox proxy, a stream) arrives without touching the
+    execution data, so the dispatcher stores task_accessor::isolation(*t) into ed.isolation before the task is executed or
+    handed to its caller.  Tracked per path and per task-pointer variable: `stale` = taken from a container and the tag not yet
+    stored for it; helpers are summarised (result stale / result fine / result is parameter i) from their own bodies, so the
+    store may live in the retrieval helper or in its caller."""
+    from engine.rules import product_walk_from
+    TASKP = ('tbb::detail::d1::task *', 'd1::task *')
+    memo = {}
+
+    def is_taskp(ty):
+        return (ty or '').replace('const', '').strip() in TASKP
+
+    def analyse(fn, depth, judge=None):
+        """returns the set of outcomes of fn's returns: 'S', 'OK', ('P', i); judge(kind, pos, node, var_is_stale) is called at
+        execute()/cancel() sites and returns"""
+        params = {}
+        for nd in fn.nodes:
+            if nd.get('k') == 'var' and 'param' in nd and is_taskp(nd.get('ty')):
+                params[nd['v']] = nd['param']
+
+        defs = Defs(fn)
+
+        def var_of(s):
+            nd = fn.n(fn.strip(s))
+            return nd['v'] if nd.get('k') == 'var' and is_taskp(nd.get('ty')) else None
+
+        def is_null(s):
+            return bool(fn.n(fn.strip(s)).get('null'))
+
+        def status_of_expr(s, st):
+            """set of statuses ('S', 'OK', ('P', i)) of a task-pointer expression in state st"""
+            stale, orig = st
+            if is_null(s):
+                return set(['OK'])
+            v = var_of(s)
+            if v is not None:
+                if v in stale:
+                    return set(['S'])
+                for (x, i) in orig:
+                    if x == v:
+                        return set([('P', i)])
+                return set(['OK'])
+            s2 = fn.strip(s)
+            nd = fn.n(s2)
+            if nd.get('k') == 'call':
+                couts = outcomes_of_call(s2, nd)
+                res = set()
+                requirements(s2, nd, couts, st)
+                for o in couts:
+                    if isinstance(o, tuple) and o[0] == 'R':
+                        continue
+                    if isinstance(o, tuple):
+                        args = nd.get('a', [])
+                        if o[1] < len(args):
+                            res |= status_of_expr(args[o[1]], st)
+                        else:
+                            res.add('OK')
+                    else:
+                        res.add(o)
+                return res
+            if nd.get('k') == 'cond':
+                return status_of_expr(nd['l'], st) | status_of_expr(nd['r'], st)
+            return set(['OK'])
+
+        def requirements(s, nd, couts, st):
+            """the callee re-spawns its parameter i (r1::spawn stamps the task with ed.isolation): the argument must not be stale"""
+            stale, orig = st
+            args = nd.get('a', [])
+            for o in couts:
+                if isinstance(o, tuple) and o[0] == 'R' and o[1] < len(args):
+                    v = var_of(args[o[1]])
+                    if v is None:
+                        continue
+                    if v in stale:
+                        if judge is not None:
+                            judge('respawn', fn.pos_of(s) or (0, 0), nd, True)
+                    else:
+                        if judge is not None:
+                            judge('respawn', fn.pos_of(s) or (0, 0), nd, False)
+                        for (x, i) in orig:
+                            if x == v:
+                                outs.add(('R', i))
+
+        def outcomes_of_call(s, nd):
+            d = fn.callee(s) or {}
+            g = facts.fns.get(nd.get('fn'))
+            cls = (d.get('cls') or '').split('::')[-1].split('<')[0]
+            if cls in TASK_CONTAINERS:
+                # a container hands the task out as it is; only if its own code stores the tag is its body consulted
+                if g is not None and depth < 4 and g.u != fn.u and writes_tag(g, 0):
+                    return summary(g, depth + 1)
+                return set(['S'])
+            if g is not None and depth < 4 and g.u != fn.u and cls != 'task':
+                return summary(g, depth + 1)
+            return set(['OK'])
+
+        def assign(st, v, sts):
+            stale, orig = st
+            stale = set(stale)
+            orig = set(x for x in orig if x[0] != v)
+            stale.discard(v)
+            if 'S' in sts:
+                stale.add(v)
+            for o in sts:
+                if isinstance(o, tuple):
+                    orig.add((v, o[1]))
+            return (frozenset(stale), frozenset(orig))
+
+        def elem_tr(st, pos, e):
+            if not isinstance(e, int):
+                return st
+            nd = fn.nodes[e]
+            k = nd.get('k')
+            if k == 'binop' and nd.get('op') == '=':
+                ln_ = fn.n(fn.strip(nd['l']))
+                if ln_.get('k') == 'var' and is_taskp(ln_.get('ty')):
+                    return assign(st, ln_['v'], status_of_expr(nd['r'], st))
+                if ln_.get('k') == 'member' and ln_.get('n') == 'isolation' and (ln_.get('cls') or '').endswith('execution_data_ext'):
+                    rs = fn.strip(nd['r'])
+                    if fn.n(rs).get('k') == 'var':           # the tag went through a local: `auto tag = isolation(*t); ed.isolation = tag;`
+                        uv = defs.unique_value(rs)
+                        if uv is not None:
+                            rs = fn.strip(uv)
+                    r = fn.n(rs)
+                    if r.get('k') == 'call' and (fn.callee_p(rs) or '').endswith('task_accessor::isolation') and r.get('a'):
+                        a0 = fn.n(fn.strip(r['a'][0]))
+                        if a0.get('k') == 'unop' and a0.get('op') == '*':
+                            v = var_of(a0['sub'])
+                            if v is not None:
+                                stale, orig = st
+                                return (frozenset(x for x in stale if x != v), frozenset(x for x in orig if x[0] != v))
+                return st
+            if k == 'decl':
+                for v in nd.get('vars', []):
+                    if is_taskp(v.get('ty')) and v.get('init', -1) >= 0:
+                        st = assign(st, v['v'], status_of_expr(v['init'], st))
+                return st
+            if k == 'call' and (fn.callee_p(e) or '') == R1 + 'spawn' and nd.get('a'):
+                a0 = fn.n(fn.strip(nd['a'][0]))
+                v = var_of(a0['sub']) if a0.get('k') == 'unop' and a0.get('op') == '*' else None
+                if v is not None:
+                    if judge is not None:
+                        judge('respawn', pos, nd, v in st[0])
+                    for (x, i) in st[1]:
+                        if x == v:
+                            outs.add(('R', i))
+            if k == 'call' and judge is not None and (fn.callee(e) or {}).get('n') in ('execute', 'cancel') and nd.get('obj', -1) >= 0:
+                v = var_of(nd['obj'])
+                if v is not None and ((fn.callee(e) or {}).get('cls') or '').endswith('d1::task'):
+                    judge('run', pos, nd, v in st[0])
+            if k == 'return' and nd.get('sub', -1) >= 0:
+                for o in status_of_expr(nd['sub'], st):
+                    outs.add(o)
+                    if judge is not None and o == 'S':
+                        judge('return', pos, nd, True)
+                if judge is not None:
+                    judge('return', pos, nd, False)
+            return st
+
+        def edge_tr(st, b, si):
+            stale, orig = st
+            for (c, truth) in fn.edge_conds(b, si):
+                cn = fn.n(c)
+                v = None
+                if cn.get('k') == 'var' and not truth:
+                    v = cn['v'] if is_taskp(cn.get('ty')) else None
+                elif cn.get('k') == 'binop' and cn.get('op') == '=' and not truth:
+                    v = var_of(cn['l'])
+                elif cn.get('k') == 'binop' and cn.get('op') in ('==', '!=') and ((cn['op'] == '==') == truth):
+                    if is_null(cn['r']):
+                        v = var_of(cn['l'])
+                    elif is_null(cn['l']):
+                        v = var_of(cn['r'])
+                if v is not None:
+                    stale = frozenset(x for x in stale if x != v)
+                    orig = frozenset(x for x in orig if x[0] != v)
+            return (stale, orig)
+        outs = set()
+        init = (frozenset(), frozenset(params.items()))
+        product_walk_from(fn, (fn.entry, -1), init, elem_tr, edge_tr)
+        return outs
+
+    wmemo = {}
+
+    def writes_tag(g, depth):
+        if g.u in wmemo:
+            return wmemo[g.u]
+        wmemo[g.u] = False
+        res = False
+        for pos, s_, l, r in assignments(g):
+            ln_ = g.n(g.strip(l))
+            if ln_.get('k') == 'member' and ln_.get('n') == 'isolation' and (ln_.get('cls') or '').endswith('execution_data_ext'):
+                res = True
+        if not res and depth < 3:
+            for pos, s_, node, d in calls(g):
+                h = facts.fns.get(node.get('fn'))
+                if h is not None and writes_tag(h, depth + 1):
+                    res = True
+                    break
+        wmemo[g.u] = res
+        return res
+
+    def summary(g, depth):
+        if g.u in memo:
+            return memo[g.u]
+        memo[g.u] = set(['OK'])
+        res = analyse(g, depth)
+        memo[g.u] = res or set(['OK'])
+        return memo[g.u]
+    n_sites = [0]
+    for name in ('task_dispatcher::receive_or_steal_task', 'task_dispatcher::local_wait_for_all', 'task_dispatcher::steal_or_get_critical',
+                 'task_dispatcher::get_critical_task'):
+        for fn in facts.get(R1 + name):
+            sites = {}
+
+            def judge(kind, pos, nd, bad):
+                key = (kind, pos)
+                sites[key] = sites.get(key, False) or bad
+                sites[(key, 'ln')] = nd.get('ln')
+            outs = analyse(fn, 0, judge)
+            for key, bad in sorted((k, v) for k, v in sites.items() if len(k) == 2 and k[1] != 'ln'):
+                kind = key[0]
+                n_sites[0] += 1
+                what = {'run': 'a task is executed only after its isolation tag was stored into the execution data',
+                        'respawn': 'a task that is spawned again (r1::spawn stamps it with ed.isolation) had its own tag stored first',
+                        'return': 'a task handed to the caller carries its own isolation tag in the execution data (or the caller is told to store it)'}[kind]
+                if kind == 'return' and name.split('::')[-1] != 'receive_or_steal_task':
+                    continue          # helpers are judged through the summary; local_wait_for_all returns only postponed / no tasks
+                rep.ob(clause, 'K4', fn, what, not bad,
+                       'a task taken out of a container reaches this point while ed.isolation still holds the tag of the previous task: '
+                       'what it spawns inherits a foreign tag, and an isolated wait nested in it filters by the wrong tag',
+                       ln=sites.get((key, 'ln')), key_extra='iso-tag|%s|%s' % (kind, fn.q[-40:]))
+    if n_sites[0] < 3:
+        raise AnalysisBroken('isolation tag: %d judged execute / return sites (expected >= 3)' % n_sites[0])
